@@ -711,9 +711,11 @@ def r6_issue_recording(ctx, sym, at):
 
             def mk(label, name, line):
                 # (two reads on one line sit in different columns)
-                f = Obj('feedback:%s' % label, label=label, fields=({'name': name} if name is not None else {}),
-                        location=Obj('location', line=line, col=4 * len(made), end_line=line, end_col=4 * len(made) + 1,
-                                     filename=None))
+                # (fields as TIFA's own feedback constructors build them: the location is one of them)
+                loc = Obj('location', line=line, col=4 * len(made), end_line=line, end_col=4 * len(made) + 1,
+                          filename=None)
+                f = Obj('feedback:%s' % label, label=label, location=loc,
+                        fields=dict({'name': name, 'name_message': name} if name is not None else {}, location=loc))
                 made.append(f)
                 return f
             fd = symexec.new_fd(sym, at.core, calls={
